@@ -204,6 +204,9 @@ class StmtMixin(CallMixin):
                     self.notes.append('attribute store dropped: .' + t.attr)
                     return
                 raise Unsupported('attribute store on %r' % (base.ty,))
+            if t.attr in getattr(self.spec, 'dropped_attr_stores', ()) and t.attr not in self.spec.fields:
+                self.notes.append('attribute store dropped: .' + t.attr)
+                return
             if base.ty.opt and base.ty.cls != 'any':
                 self.safety('AttributeError', base.term != NONE, 'store_none_' + t.attr)
             self.write_field(base.term, t.attr, v)
